@@ -97,7 +97,12 @@ URL_IN_TEXT_RE = re.compile(
 URL_IN_HTML = r"""<a[^>]*\shref=(?:"([^"]*)"|'([^']*)'|([^\s>]*))[^>]*>"""
 URL_IN_HTML_BINARY = URL_IN_HTML.encode()
 
-URL_IN_HTML_RE = re.compile(URL_IN_HTML, re.I)
+# NOTE: str patterns having a binary counterpart must not be unicode-aware, so
+# that both match the same things in a string and in its encoded version
+# (python 2 has no such flag, its patterns are not unicode-aware by default).
+ASCII = getattr(re, "ASCII", 0)
+
+URL_IN_HTML_RE = re.compile(URL_IN_HTML, re.I | ASCII)
 URL_IN_HTML_BINARY_RE = re.compile(URL_IN_HTML_BINARY, re.I)
 
 QUERY_VALUE_IN_URL_TEMPLATE = r"(?:^|[?&])(%s)=([^&]+)"
@@ -108,5 +113,5 @@ DOMAIN_TEMPLATE = r"^(?:https?:)?(?://)?(?:\S+(?::\S*)?@)?%s(?:[:/#]|\s*$)"
 SCRIPT_TAG = r"<script\b[^<]*(?:(?!<\/script>)<[^<]*)*<\/script>"
 SCRIPT_TAG_BINARY = SCRIPT_TAG.encode()
 
-SCRIPT_TAG_RE = re.compile(SCRIPT_TAG, re.I)
+SCRIPT_TAG_RE = re.compile(SCRIPT_TAG, re.I | ASCII)
 SCRIPT_TAG_BINARY_RE = re.compile(SCRIPT_TAG_BINARY, re.I)
